@@ -348,6 +348,57 @@ def slice_assumptions(assumptions, goal):
     return keep
 
 
+_NLMUL = {}
+
+
+def abstract_nonlinear(formulas):
+    """replace every product of two or more non-numeral factors and every division by a non-numeral by an application of
+    an uninterpreted function (same sorts).  Sound for proving: a set of formulas that is unsatisfiable for every
+    interpretation of these symbols is unsatisfiable for the real multiplication/division; congruence is kept, so
+    `f(j) * f(j) == f(1 + y) * f(1 + y)` still follows from `j == 1 + y`.  Returns (formulas', changed)."""
+    cache = {}
+    changed = [False]
+
+    def fn(name, *sorts):
+        key = (name,) + tuple(str(x) for x in sorts)
+        if key not in _NLMUL:
+            _NLMUL[key] = z3.Function(f"{name}!{len(_NLMUL)}", *sorts)
+        return _NLMUL[key]
+
+    def walk(e):
+        i = e.get_id()
+        if i in cache:
+            return cache[i]
+        if z3.is_quantifier(e) or not z3.is_app(e) or e.num_args() == 0:
+            cache[i] = e
+            return e
+        kids = [walk(c) for c in e.children()]
+        k = e.decl().kind()
+        r = None
+        if k == z3.Z3_OP_MUL:
+            nums = [c for c in kids if z3.is_int_value(c) or z3.is_rational_value(c)]
+            rest = [c for c in kids if not (z3.is_int_value(c) or z3.is_rational_value(c))]
+            if len(rest) >= 2:
+                changed[0] = True
+                rest = sorted(rest, key=lambda c: c.sexpr())   # commutativity: canonical argument order
+                acc = rest[0]
+                for c in rest[1:]:
+                    acc = fn("nlmul", acc.sort(), c.sort(), e.sort())(acc, c)
+                for c in nums:
+                    acc = c * acc
+                r = acc
+        elif k == z3.Z3_OP_DIV and not (z3.is_int_value(kids[1]) or z3.is_rational_value(kids[1])):
+            changed[0] = True
+            r = fn("nldiv", kids[0].sort(), kids[1].sort(), e.sort())(kids[0], kids[1])
+        if r is None:
+            r = e.decl()(*kids) if kids else e
+        cache[i] = r
+        return r
+    import sys
+    sys.setrecursionlimit(max(sys.getrecursionlimit(), 50000))
+    return [walk(f) for f in formulas], changed[0]
+
+
 def prove(assumptions, goal, timeout_s=10, opts=None, rounds=2):
     """PROVED iff assumptions ∧ axiom-instances ∧ ¬goal is unsat"""
     t0 = time.time()
@@ -370,6 +421,19 @@ def prove(assumptions, goal, timeout_s=10, opts=None, rounds=2):
     base = [a for a in assumptions] + [z3.Not(goal)]
     inst = axioms.saturate(base, rounds=rounds, opts=opts)
     formulas = base + inst
+    if (opts or {}).get("abstract_nl"):
+        # cheap sound first attempt: products/quotients of unknowns as uninterpreted functions (linear arithmetic + congruence)
+        try:
+            fa, ch = abstract_nonlinear([z3.simplify(f) for f in formulas])
+            if ch:
+                sa = z3.Solver()
+                sa.set("timeout", int(min(timeout_s, 5) * 1000))
+                for f in fa:
+                    sa.add(f)
+                if sa.check() == z3.unsat:
+                    return Verdict(PROVED, "z3-5.1(products-as-uninterpreted-functions)", (time.time() - t0) * 1000)
+        except z3.Z3Exception:  # pragma: no cover
+            pass
     res, model, backend, ms = check_formulas(formulas, timeout_s)
     if res == "unsat":
         return Verdict(PROVED, backend, ms)
